@@ -519,6 +519,24 @@ Proof.
     + rewrite set_nth_other by exact Hne. apply Ho. exact Hne.
 Qed.
 
+(* the meaning of lift_ok in the concrete model: for a wrap pair (l, h) along ax and every axis a of
+   the grid, the cells lifted by kappa periods are face neighbours (lifted h + e_ax = lifted l) iff
+   kappa (label h) = kappa (label l) - e_ax *)
+Lemma wrap_pair_lift_adjacent g img (kappa : nat -> nat -> Z) ax l h a : grid_ok g ->
+  wrap_pair g ax l h -> (a < length g)%nat ->
+  (coordQ h a + inject_Z (kappa (clab img h) a * shapeN g a) + inject_Z (delta a ax)
+     == coordQ l a + inject_Z (kappa (clab img l) a * shapeN g a)
+   <-> kappa (clab img h) a = (kappa (clab img l) a - delta a ax)%Z).
+Proof.
+  intros Hg Hw Ha. apply (wrap_pair_nth g ax l h Hg) in Hw. destruct Hw as (_ & _ & _ & H0 & Hh & Ho).
+  apply (lift_adjacent_axis cell (clab img) (shapeN g) coordQ kappa l h ax a).
+  - destruct (nth_error g a) as [x|] eqn:E; [|apply nth_error_None in E; lia].
+    destruct (axis_facts g a x Hg E) as [_ H1]. unfold shapeN. lia.
+  - unfold coordQ. rewrite H0. reflexivity.
+  - unfold coordQ. rewrite Hh. unfold Z.sub. rewrite inject_Z_plus, inject_Z_opp. reflexivity.
+  - intros Hne. unfold coordQ. rewrite (Ho a Hne). reflexivity.
+Qed.
+
 (* ---- executable checks of the side conditions ---- *)
 Fixpoint cells_eqb (a b : list cell) : bool :=
   match a, b with
@@ -607,3 +625,4 @@ Print Assumptions locate_cart_position.
 Print Assumptions face_adj_nth.
 Print Assumptions wrap_pair_nth.
 Print Assumptions locate_cart_nonvacuous.
+Print Assumptions wrap_pair_lift_adjacent.
